@@ -91,7 +91,12 @@ func c01(ctx *core.Ctx) {
 		}
 		router := routerOf(ti)
 		r := ctx.Rand(ti, "table")
-		t := rt.GenTable(r, fullGenOpts(router))
+		o := fullGenOpts(router)
+		if m := ti % 40; m == 14 || m == 15 {
+			// table shapes beyond what the small tables reach (long templates, 33-40 services, long media lists, many conditions, 130 routes)
+			ctx.SetAdd("scaled_table_shapes", rt.Scale(&o, ti/40))
+		}
+		t := rt.GenTable(r, o)
 		ctx.Case(ti, "router="+router+" table="+core.JSON(t))
 		bo := rt.DefaultBuild(router)
 		bo.SelFilters = true
@@ -299,6 +304,10 @@ func c02(ctx *core.Ctx) {
 		case 11:
 			oddTemplates(ctx, ti, "curly")
 			oddTemplates(ctx, ti, "jsr311")
+		}
+		if m := ti % 40; m == 14 || m == 15 {
+			// table shapes beyond what the small tables reach (long templates, 33-40 services, long media lists, many conditions, 130 routes)
+			ctx.SetAdd("scaled_table_shapes", rt.Scale(&o, ti/40))
 		}
 		t := rt.GenTable(r, o)
 		emptied := ""
